@@ -2676,7 +2676,10 @@ def run(ctx: Ctx, driver: Driver):
 
 def replay(ctx, driver, c):
     if isinstance(c, dict) and c.get("stream") == "top":
-        viol, _, _ = run_top_history(c)
+        try:
+            viol, _, _ = run_top_history(c)
+        except Exception as e:  # noqa: BLE001 - as in top_stream
+            viol = [("notify/" + type(e).__name__, f"the top-level history could not be run: {type(e).__name__}: {e}", 0)]
         return [{"signature": sig, "what": what} for sig, what, _ in viol] or None
     if isinstance(c, dict) and c.get("stream") == "dbhist":
         viol, _, _, _ = run_db_history(c)
